@@ -35,16 +35,19 @@ CONFIGS = {
          open_mode='pending', ok_first=2, max_notifications=1), 7),
   ],
   'thorough': [
-    ('n=3 min1 max2 hi1.0 traffic+time', cfg(3, 1, 2, 1.0, ops=TRAFFIC, advs=[0, 1, 2, 3], max_out=5), 10),
-    ('n=4 min2 max3 hi2.0 traffic+time+failures', cfg(4, 2, 3, 2.0, ops=TRAFFIC + ['Down', 'Up'], advs=[1, 3], max_out=6, max_down=2), 9),
+    ('n=3 min1 max2 hi1.0 traffic+time', cfg(3, 1, 2, 1.0, ops=TRAFFIC, advs=[0, 1, 2, 3], max_out=5), 9),
+    ('n=4 min2 max3 hi2.0 traffic+time+failures', cfg(4, 2, 3, 2.0, ops=TRAFFIC + ['Down', 'Up'], advs=[1, 3], max_out=6, max_down=2), 8),
     ('n=4 min1 unbounded hi1.0 joins/leaves', cfg(4, 1, 2 ** 31, 1.0, extra=1, ops=TRAFFIC + ['Join', 'Leave', 'Down', 'Up'], advs=[2, 3],
-                                              max_out=5, max_notifications=3, max_down=1), 9),
+                                              max_out=5, max_notifications=3, max_down=1), 8),
     ('n=4 min2 max4 hi1.0 pending opens', cfg(4, 2, 4, 1.0, ops=TRAFFIC + ['Open', 'Down'], advs=[2, 3], max_out=5, max_down=1,
-                                              open_mode='pending', ok_first=2), 9),
+                                              open_mode='pending', ok_first=2), 8),
     ('n=3 min1 max2 hi1.0 jitter', cfg(3, 1, 2, 1.0, ops=TRAFFIC + ['Down', 'Up'], advs=[1], max_out=4, max_down=1, jitter_min=1, jitter_max=2,
-                                       key_timers=True), 9),
+                                       key_timers=True), 8),
     ('n=3 min2 max3 hi2.0 jitter+pending', cfg(3, 2, 3, 2.0, ops=TRAFFIC + ['Open'], advs=[1], max_out=4, jitter_min=1, jitter_max=2,
-                                               key_timers=True, open_mode='pending', ok_first=2), 8),
+                                               key_timers=True, open_mode='pending', ok_first=2), 7),
+    ('n=3 min2 max3 hi2.0 jitter round with a pending open and a member leaving',
+     cfg(3, 2, 3, 2.0, ops=['D', 'C', 'Adv', 'Open', 'Leave', 'Join'], advs=[1], max_out=3, jitter_min=1, jitter_max=2, key_timers=True,
+         open_mode='pending', ok_first=2, max_notifications=2), 8),
   ],
 }
 
